@@ -42,6 +42,12 @@ struct OracleInner {
 	// xxh3_64(key) -> commit_seq of the most recent writer of that key.
 	recent_writes: HashMap<u64, u64>,
 
+	// xxh3_64(key) -> (stamp written by `publish`, stamp it replaced). Lets
+	// `rollback` put the replaced stamp back: removing the entry outright
+	// would also forget the earlier committer, and a transaction that began
+	// before that committer could then commit the same key unnoticed.
+	replaced: HashMap<u64, (u64, u64)>,
+
 	// The smallest seq still represented in the map: every commit at
 	// `seq >= kept_since` is recorded. A txn with `start_seq < kept_since`
 	// cannot be soundly validated (its window has been pruned) and gets
@@ -78,6 +84,7 @@ impl CommitOracle {
 		Self {
 			inner: Mutex::new(OracleInner {
 				recent_writes: HashMap::new(),
+				replaced: HashMap::new(),
 				kept_since: 0,
 				commits_since_gc: 0,
 				#[cfg(debug_assertions)]
@@ -131,7 +138,16 @@ impl CommitOracle {
 		let mut g = self.inner.lock();
 		let stamp = seq_num + count - 1;
 		for k in keys {
-			g.recent_writes.insert(fp(k), stamp);
+			let fk = fp(k);
+			match g.recent_writes.insert(fk, stamp) {
+				Some(prev) if prev != stamp => {
+					g.replaced.insert(fk, (stamp, prev));
+				}
+				Some(_) => {}
+				None => {
+					g.replaced.remove(&fk);
+				}
+			}
 		}
 
 		// `saturating_add` so the counter doesn't overflow if the watermark
@@ -163,6 +179,7 @@ impl CommitOracle {
 			g.commits_since_gc = 0;
 			g.kept_since = oldest_active;
 			g.recent_writes.retain(|_, v| *v >= oldest_active);
+			g.replaced.retain(|_, v| v.1 >= oldest_active);
 		}
 	}
 
@@ -197,7 +214,17 @@ impl CommitOracle {
 			let fk = fp(k);
 			if let Some(&v) = g.recent_writes.get(&fk) {
 				if v == my_seq {
-					g.recent_writes.remove(&fk);
+					// Put back the stamp this commit had replaced (if it is still
+					// inside the tracked window); only otherwise drop the entry.
+					let kept_since = g.kept_since;
+					match g.replaced.remove(&fk) {
+						Some((mine, prev)) if mine == my_seq && prev >= kept_since => {
+							g.recent_writes.insert(fk, prev);
+						}
+						_ => {
+							g.recent_writes.remove(&fk);
+						}
+					}
 				}
 			}
 		}
@@ -220,6 +247,7 @@ impl CommitOracle {
 		g.kept_since = max_seq;
 		g.commits_since_gc = 0;
 		g.recent_writes.clear();
+		g.replaced.clear();
 		// `oldest_active` can legitimately go backwards across a restore (the
 		// seq counter has been rewound). Reset the monotonicity baseline so
 		// the debug assert doesn't fire on the first post-restore GC.
